@@ -77,12 +77,14 @@ def rule_harness(c, NA, prefix=None, minn=0):
     return '\n'.join(D) + '\n'
 
 
-def rule_queries(ctx, qs, c, NA, groups, prefix=None, tag='', mem_gb=2, solver='minisat2'):
+def rule_queries(ctx, qs, c, NA, groups, prefix=None, tag='', mem_gb=2, solver='minisat2', fixn=None):
     unit = ctx.unit('c15r_' + c['name'], text=rule_wrapper(c))
     sg = 1 if c['signed'] else 0
     minn = (sg + len(prefix)) if prefix else 0
     h = ctx.write('r_%s%s.c' % (c['name'], tag), rule_harness(c, NA, prefix, minn))
     maxdig = NA - 1   # longest digit string that still leaves room for nothing else
+    # a scan that runs over the end of the buffer (reads there are unconstrained under CBMC) stops after digits(Max)+1 steps at the latest
+    uw = max(NA, digits_of(c['maxpos']) + 1 if (c['ovf_a'] == 1 and c['maxpos'] < umax(64) + 1) else 0) + 3
     for grp in groups:
         act = grp[-1][0] == 'a'
         ovf = c['ovf_a'] if act else c['ovf_n']
@@ -91,9 +93,11 @@ def rule_queries(ctx, qs, c, NA, groups, prefix=None, tag='', mem_gb=2, solver='
         maxlen = sg + (NA - sg if ovf == 0 else min(NA - sg, digits_of(lim)))       # longest numeral that can be accepted
         can_fail = not (prefix and not sg and prefix[0] != '0')
         cd = {'VF_SPLIT': 1, 'C15_REACH_OVF': 1 if can_over else 0, 'C15_REACH_EXC': 1 if (can_over and ovf == 2) else 0,
-              'C15_REACH_LEN': min(maxlen, (len(prefix) + sg + 1) if prefix else maxlen), 'C15_REACH_FAIL': 1 if can_fail else 0}
+              'C15_REACH_LEN': min(maxlen, (len(prefix) + sg + 1) if prefix else maxlen), 'C15_REACH_FAIL': 1 if can_fail else 0,
+              'C15_REACH_EOF': 1 if (fixn is None or ovf == 0 or int(prefix + '0' * (NA - sg - len(prefix))) <= lim) else 0}
         cd.update(('V_' + v, 1) for v in grp)
-        qs.append(vf.Query('rule/%s%s/%s' % (c['name'], tag, '+'.join(grp)), unit, h, unwind=NA + 3, unwindset=['x_strlen.0:32'], cbmc_defines=cd, mem_gb=mem_gb, solver=solver,
+        qs.append(vf.Query('rule/%s%s/%s' % (c['name'], tag, '+'.join(grp)), unit, h, unwind=uw, unwindset=['x_strlen.0:32'], cbmc_defines=cd, mem_gb=mem_gb, solver=solver,
+                           defines={'C15_FIXN': fixn} if fixn is not None else None,
                            bounds={'bytes': NA, 'rule': c['rule'], 'action': c['action'], 'state': c['state'], 'variants': grp, 'prefix': prefix,
                                    'max_positive': c['maxpos'], 'max_negative': c['maxneg']},
                            note='real %s on symbolic bytes vs documented numeral syntax + exact value/overflow' % c['rule']))
@@ -156,10 +160,10 @@ def rule_cases(quick):
             else:
                 na, pf = small, pref(mx - 1, mx + 1)
             main = mx == M
-            v2 = ALL if (not quick or (b == 8 and main)) else REQ
+            v2 = ALL if ((b == 8 and (main or not quick)) or (not quick and main)) else REQ
             add(rule_case('mr_u%d_%d' % (b, mx), mr, None, None, 64, maxpos=mx, ovf_a=1, ovf_n=1), na, v2, pf)
             add(rule_case('mra_u%d_%d' % (b, mx), 'maximum_rule_with_action< %s, %s >' % (U, ml), U, None, b, maxpos=mx, ovf_a=2, ovf_n=2, conv=1), na, v2, pf)
-            if not quick or (b == 8 and main):
+            if (b == 8 and (main or not quick)) or (not quick and main):
                 add(rule_case('mr_act_u%d_%d' % (b, mx), mr, U, 'c15::bind< %s, %s >::on' % (ma, mr), b, maxpos=mx, ovf_a=1, ovf_n=1, conv=1), na, v2, pf)
                 add(rule_case('ur_mact_u%d_%d' % (b, mx), 'unsigned_rule', U, 'c15::bind< %s, unsigned_rule >::on' % ma, b, maxpos=mx, ovf_a=2, conv=1), na, v2, pf)
     return out
@@ -299,10 +303,11 @@ def conv_queries(ctx, qs, bits, signed, quick):
         NL = 6 if quick else 8
     emit(NL, None, '', loopmaxes, True)
     if bits >= 32:
-        # boundary neighbourhoods: concrete high digits, 8 symbolic low digits, up to one digit beyond the width
+        # boundary neighbourhoods: concrete high digits, T symbolic low digits, up to one digit beyond the width
+        T = 6 if quick else 8
         for v in ([tmax, smax_mag] if not signed else [tmax]):
             d = str(v)
-            emit(len(d) + 1, d[:-8], '@' + d[:-8], [v], False)
+            emit(len(d) + 1, d[:-T], '@' + d[:-T], [v], False)
 
 
 def plan(ctx):
@@ -313,7 +318,9 @@ def plan(ctx):
         rule_queries(ctx, qs, c, NA, groups)
         for p in prefixes:
             sg = 1 if c['signed'] else 0
-            rule_queries(ctx, qs, c, sg + len(p) + 4, groups, prefix=p, tag='@' + p)
+            for n in (sg + len(p) + 2, sg + len(p) + 3, sg + len(p) + 4):
+                # numeral of exactly the width / one digit more, at the end of the input or followed by a byte
+                rule_queries(ctx, qs, c, n, groups, prefix=p, tag='@%s:%d' % (p, n), fixn=n)
     for bits in (8, 16, 32, 64):
         for signed in (False, True):
             conv_queries(ctx, qs, bits, signed, quick)
